@@ -727,6 +727,12 @@ func run(t *tr.W, thorough bool) {
 	for i := 0; i < 3*budget; i++ {
 		cpCase(t, rc, "short-list")
 	}
+	// scripted: resumed syncs around a hard-coded filter-header checkpoint, run by
+	// the real cfHandler (own PRNG stream)
+	rr := tr.Rng(3035)
+	for i := 0; i < 5*budget; i++ {
+		resumeCase(t, rr, i)
+	}
 	w = newWorld(t, r, nil)
 	if os.Getenv("VERIF_C03_PROBES") != "" {
 		probes(w)
